@@ -21,7 +21,7 @@ class CycleError(Exception):
 
 class Ref:
     def __init__(self, spec: ModelSpec, dom, P, Y, W, EP=None, delayed=None, ext_inputs=None, edge_mask=(),
-                 zero_default=(), weight_from=None):
+                 zero_default=(), weight_from=None, past=None):
         """P(node, op, var) -> value of a constant / input default
         Y(node, op, var) -> current value of a state variable
         W(i) -> weight of edge i (None weight => 1)
@@ -35,6 +35,7 @@ class Ref:
         self.edge_mask = set(edge_mask)
         self.zero_default = set(zero_default)
         self.weight_from = dict(weight_from or {})
+        self.past = past        # past(node, op) -> fn(var, delay_value): value of a delayed state variable
         self._stack = set()
         self._memo = {}
 
@@ -92,7 +93,7 @@ class Ref:
         raise ValueError(kind)
 
     def _past(self, node, op):
-        return None
+        return self.past(node, op) if self.past else None
 
     def edge_source(self, i):
         e = self.spec.edges[i]
